@@ -45,13 +45,21 @@ static Verdict run(const Case &c) {
     Bytes f;
     const Mac SRC = c.c(12) ? OWN : MAPPER;
     if (opcode == OP_DISCOVER) {
-        f = mk_discover(SRC, SRC, (uint8_t)tos, xid, gen, st);
+        // [16] the Discover arrives through a bridge: its Ethernet source is not the mapper (1: an address nobody knows; 2: the address of ANOTHER mapper whose session is in the
+        //      table in class "other mapper") - sessions are those of the real source
+        Mac ESRC = c.c(16) == 1 ? mac_from_u64(0x02AA00000077ULL) : c.c(16) == 2 ? mac_from_u64(0x02AA00000002ULL) : SRC;
+        f = mk_discover(ESRC, SRC, (uint8_t)tos, xid, gen, st);
         for (int i = 0; i < extra; i++) putmac(f, i == 0 ? OWN : mac_from_u64(0x0600EE000000ULL + (uint64_t)i));   // received bytes after the declared list
     } else { f = mk_header(edst, SRC, (uint8_t)tos, (uint8_t)opcode, rdst, SRC, xid); Bytes body(20, 0x77); f.insert(f.end(), body.begin(), body.end()); }
     size_t len = opcode == OP_DISCOVER ? 36 + 6 * (size_t)(held + extra) : f.size();
-    uint8_t *buf = (uint8_t *)malloc(MTU);
-    memset(buf, 0xEE, MTU);
-    cpy(buf, f.data(), std::min(f.size(), MTU));    // stations beyond 'held' stay in the buffer as stale bytes
+    // [15] r in 1..5: the received frame ends with the first r octets of this station's address right behind the last whole station, and the
+    //      receive buffer ends there too (a partial entry is no entry, and nothing behind the buffer is read)
+    size_t partial = opcode == OP_DISCOVER && extra == 0 ? (size_t)std::max<int64_t>(0, std::min<int64_t>(c.c(15), 5)) : 0;
+    if (partial) { Bytes g(f.begin(), f.begin() + (long)std::min(f.size(), len)); g.resize(len, 0); for (size_t i = 0; i < partial; i++) g.push_back(OWN.b[i]); f = g; len += partial; }
+    const size_t bufsz = partial ? len : MTU;
+    uint8_t *buf = (uint8_t *)malloc(bufsz);
+    memset(buf, 0xEE, bufsz);
+    cpy(buf, f.data(), std::min(f.size(), bufsz));    // stations beyond 'held' stay in the buffer as stale bytes
     // ---- table
     void *t = tclass == T_NULL ? nullptr : br_st_create();
     bool changed = false;
@@ -125,6 +133,8 @@ static Verdict run(const Case &c) {
         v.cls(fmt("table-class-%d", tclass));
         if (decoy) v.cls(fmt("decoy-%d", decoy));
         if (held < n) v.cls("count-exceeds-frame");
+        if (partial) v.cls("frame-ends-with-a-partial-copy-of-the-own-address");
+        if (c.c(16)) v.cls("bridged-discover");
         if (c.c(13) > 60) v.cls("session-last-heard-of-more-than-60s-ago");
         if (c.c(14)) v.cls("second-table-knows-the-mapper");
         if (extra) v.cls("frame-holds-more-than-count");
@@ -158,7 +168,7 @@ int main(int argc, char **argv) {
         for (int p = -1; p < n && ok; p++)
             for (int t = 0; t < T_NCLASSES && ok; t++, k++) {
                 if (k % a.nshards != a.shard) continue;
-                ok = one(a, ev, {n, p, (n + p + t) % 4 == 0 ? 3 : 0, t, OP_DISCOVER, n & 1, 1, -1, 0x1234, 0x0042, 1, (n + t) % 3 == 0 ? 2 : 0, 0, std::vector<int64_t>{0, 0, 59, 61, 500}[(size_t)(n + 2 * p + t + 2) % 5], std::vector<int64_t>{0, 0, 1, 2}[(size_t)(n + p + 3 * t + 1) % 4]}, "c11-layouts");
+                ok = one(a, ev, {n, p, (n + p + t) % 4 == 0 ? 3 : 0, t, OP_DISCOVER, n & 1, 1, -1, 0x1234, 0x0042, 1, (n + t) % 3 == 0 ? 2 : 0, 0, std::vector<int64_t>{0, 0, 59, 61, 500}[(size_t)(n + 2 * p + t + 2) % 5], std::vector<int64_t>{0, 0, 1, 2}[(size_t)(n + p + 3 * t + 1) % 4], (n * 5 + p + t) % 3 == 0 ? (n + t) % 6 : 0, (n + p + 2 * t) % 3}, "c11-layouts");
             }
     for (int opc = 0; opc < 256 && ok; opc++)
         for (int bc = 0; bc < 4 && ok; bc++) {   // real destination broadcast? x Ethernet destination broadcast?
@@ -173,7 +183,7 @@ int main(int argc, char **argv) {
             int64_t held = *gx::chance(25) ? *gx::range<int64_t>(0, n) : -1;
             int64_t opc = *gx::weighted<int64_t>({{12, rc::gen::just<int64_t>(0)}, {1, rc::gen::just<int64_t>(8)}, {1, rc::gen::just<int64_t>(1)}, {1, gx::range<int64_t>(0, 255)}});
             c.cfg = {n, p, *gx::pick({0, 0, 1, 2, 3}), *gx::range<int64_t>(0, T_NCLASSES - 1), opc, *gx::pick({0, 1}), *gx::pick({0, 1}), held,
-                     *gx::bnd({0, 1, 0xFFFF}, 0, 0xFFFF, 1, 1), *gx::bnd({0, 1, 0xFFFF}, 0, 0xFFFF, 1, 1), *gx::pick({0, 1}), *gx::pick({0, 0, 1, 3}), *gx::pick({0, 0, 0, 0, 1}), *gx::pick({0, 0, 0, 1, 59, 60, 61, 62, 500}), *gx::pick({0, 0, 0, 1, 2})};
+                     *gx::bnd({0, 1, 0xFFFF}, 0, 0xFFFF, 1, 1), *gx::bnd({0, 1, 0xFFFF}, 0, 0xFFFF, 1, 1), *gx::pick({0, 1}), *gx::pick({0, 0, 1, 3}), *gx::pick({0, 0, 0, 0, 1}), *gx::pick({0, 0, 0, 1, 59, 60, 61, 62, 500}), *gx::pick({0, 0, 0, 1, 2}), *gx::pick({0, 0, 0, 0, 1, 2, 3, 4, 5}), *gx::pick({0, 0, 1, 2})};
             return c;
         });
         ok = run_cases(a, ev, "c11-random", a.n(200000, 2000000), 100, gen, run);
